@@ -255,7 +255,7 @@ fn one_history(rep: &mut Report, rng: &mut Rng, case_no: u64, nops: usize, every
         // (4a) caches as found vs removed, right after the restart
         let threads = threads_in(&lp);
         let msgs_now: Vec<String> = read_frames(&lp).iter().filter(|f| f["type"] == "continuity_message_appended" && f["session_id"].as_str() == Some(thread.as_str())).filter_map(|f| f["id"].as_str().map(|x| x.to_string())).collect();
-        let q = crate::c04::Queries { stride: 2, limit: 10, anchors: msgs_now.last().cloned().into_iter().collect() };
+        let q = crate::c04::Queries { stride: 2, limit: 10, anchors: msgs_now.last().cloned().into_iter().collect(), rotate_endpoint: None };
         let mut stale: Vec<String> = Vec::new();
         if threads.contains(&thread) {
             let (a, b) = crate::c04::compare(&s.dir, "cmp", &d, &w, &thread, &q, None);
